@@ -313,13 +313,29 @@ FORBIDDEN = re.compile(r"\b(Admitted|admit|Axiom|Axioms|Parameter|Parameters|Con
 SECTION_ONLY = re.compile(r"^\s*(Variable|Variables|Hypothesis|Hypotheses|Context)\b")
 
 
+def _strip_coq_comments(txt):
+    """remove (possibly nested) Coq comments, keeping line structure"""
+    out, depth, i, n = [], 0, 0, len(txt)
+    while i < n:
+        if txt.startswith("(*", i):
+            depth += 1
+            i += 2
+        elif depth and txt.startswith("*)", i):
+            depth -= 1
+            i += 2
+        else:
+            if depth == 0 or txt[i] == "\n":
+                out.append(txt[i])
+            i += 1
+    return "".join(out)
+
+
 def coq_hygiene():
     """No Admitted/Axiom/... anywhere in the development; Variable/Hypothesis only inside a Section."""
     bad = []
     for f in coq_project_files():
         depth = 0
-        txt = open(os.path.join(COQ, f)).read()
-        txt = re.sub(r"\(\*.*?\*\)", lambda m: "\n" * m.group(0).count("\n"), txt, flags=re.S)
+        txt = _strip_coq_comments(open(os.path.join(COQ, f)).read())
         txt = re.sub(r'"[^"\n]*"', '""', txt)
         for n, line in enumerate(txt.split("\n"), 1):
             s = line.strip()
